@@ -618,7 +618,12 @@ def h_fields_values(F, R):
                     return True
                 return None
             try:
-                r = PE(F, call_hook=hook, cond_hook=cond).call_fn(fid, [a, b if m != "hash" else Sym("STATE")])
+                pe = PE(F, call_hook=hook, cond_hook=cond)
+                pe.symbolic_eq = True
+                r = pe.call_fn(fid, [a, b if m != "hash" else Sym("STATE")])
+                for ev in pe.events:
+                    if ev[0] == "eq":
+                        calls.append(("eq" if ev[1] == "Eq" else "ne", (ev[2], ev[3])))
             except Undecided as e:
                 raise AnchorLost("%s::%s for TopicFilter cannot be evaluated: %s" % (tr, m, e))
             A, B = vkey(Sym("A")), vkey(Sym("B"))
@@ -962,3 +967,395 @@ def _str_of(v):
     if isinstance(v, str):
         return v
     return repr(v)
+
+
+# ---- the version gate of CONNECT ---------------------------------------------------------------------------------------------
+
+def s_gate_values(F, R):
+    """decode_with_protocol of each family, evaluated for every Protocol variant with reads counted: a protocol of the other
+    family is refused with UnexpectedProtocol(that protocol) before a single byte is read; a protocol of its own family is not
+    refused by the gate (the decoder goes on to read the connect flags)."""
+    accept = {"v3": {"V310", "V311"}, "v5": {"V500"}}
+    variants = [v["name"] for v in F.adts["common::types::Protocol"]["variants"]]
+    n = 0
+    for fam in FAMS:
+        fid = "%s::connect::Connect::decode_with_protocol" % fam
+        if fid not in F.fns:
+            raise AnchorLost(fid)
+        for v in variants:
+            n += 1
+            reads = []
+
+            class _Stop(Exception):
+                pass
+
+            def hook(d, res, args, node, env):
+                r = res or d
+                if r.startswith("common::utils::read_") or r == "common::utils::decode_var_int" or node["fn"].get("name") in ("read_exact", "read", "poll_read") \
+                        or r.endswith("::decode_async"):
+                    reads.append(r)
+                    raise _Stop()
+                return None
+            proto = Adt("common::types::Protocol", v)
+            nparams = len([p for p in F.fns[fid]["thir"]["params"] if p.get("pat") is not None])
+            args = [Sym("READER")] + ([_hdr(fam, "Connect", 30)] if nparams == 3 else []) + [proto]
+            try:
+                r = PE(F, call_hook=hook, cond_hook=TRY_OK).call_fn(fid, args)
+                k = result_kind(r)
+            except _Stop:
+                k = ("reads",)
+            except Undecided as e:
+                raise AnchorLost("%s cannot be evaluated for Protocol::%s: %s" % (fid, v, e))
+            if v in accept[fam]:
+                good = k == ("reads",)
+                R.check(good, "S-gate", "%s/%s" % (fam, v), "%s with its own protocol %s: %s (expected: passes the gate and starts reading)" % (fid, v, k), where=fid)
+            else:
+                good = k[0] == "err" and isinstance(k[1], Adt) and k[1].variant == "UnexpectedProtocol" and k[1].fields.get("0") == proto and not reads
+                R.check(good, "S-gate", "%s/%s" % (fam, v),
+                        "%s with the other family's protocol %s: %s after %d read(s) (expected Err(UnexpectedProtocol(%s)) before any byte is read)" % (
+                            fid, v, k if k[0] != "err" else repr(k[1]), len(reads), v), where=fid)
+    R.floor("S-gate", "family x protocol evaluations", n, 6)
+
+
+# ---- the async encoder entry points and VarBytes ---------------------------------------------------------------------------
+
+def h_async1_values(F, R):
+    """Packet::encode_async of each family, evaluated with its sink calls recorded: it computes self.encode() once, hands the
+    *whole* encoded container (`data.as_ref()`) to exactly one write_all, returns Ok(()) when that succeeds, the encoder's
+    error when encode fails (without touching the sink) and the sink's error (kind preserved) when the write fails."""
+    for fam in FAMS:
+        fid = "%s::packet::Packet::encode_async" % fam
+        if fid not in F.fns:
+            raise AnchorLost(fid)
+        for scenario in ("ok", "encode-fails", "write-fails"):
+            sink = []
+            encs = []
+
+            def hook(d, res, args, node, env):
+                r = res or d
+                name = node["fn"].get("name")
+                if r == "%s::packet::Packet::encode" % fam:
+                    encs.append(args[0])
+                    return err(Sym("ENCERR")) if scenario == "encode-fails" else ok(Sym("DATA"))
+                if name == "as_ref" and len(args) == 1 and args[0] == Sym("DATA"):
+                    return Sym("DATA.as_ref")
+                tr = node["fn"].get("trait") or ""
+                if tr.endswith("AsyncWriteExt") or tr.endswith("AsyncWrite") or tr.endswith("io::Write") or name in ("poll_write", "poll_flush", "poll_fn"):
+                    sink.append((name, args[1] if len(args) > 1 else None))
+                    if scenario == "write-fails":
+                        return err(Sym("ioerr"))
+                    return ok(UNIT)
+                if d == "std::io::error::Error::kind" and args and args[0] == Sym("ioerr"):
+                    return Sym("ioerr.kind")
+                if name in ("to_string", "to_owned") and len(args) == 1:
+                    return Sym("text")
+                return None
+            try:
+                r = PE(F, call_hook=hook).call_fn(fid, [Sym("SELF"), Sym("WRITER")])
+            except Undecided as e:
+                R.fail("H-async1", "%s/%s/undecided" % (fam, scenario),
+                       "%s cannot be evaluated as `encode()?; write_all(data.as_ref())?; Ok(())` (%s): it takes another path to the sink" % (fid, str(e)[:160]), where=fid)
+                continue
+            k = result_kind(r)
+            if scenario == "ok":
+                good = encs == [Sym("SELF")] and sink == [("write_all", Sym("DATA.as_ref"))] and k[0] == "ok"
+                R.check(good, "H-async1", "%s/one-write_all" % fam,
+                        "%s: encode called on %s, sink calls %s, result %r (expected one encode of self, one write_all of the whole encoding, Ok)" % (
+                            fid, encs, sink, r), where=fid)
+            elif scenario == "encode-fails":
+                good = not sink and k[0] == "err" and (k[1] == Sym("ENCERR") or (isinstance(k[1], Sym) and "ENCERR" in repr(k[1])))
+                R.check(good, "H-async1", "%s/encode-error" % fam, "%s when encode fails: sink calls %s, result %r" % (fid, sink, r), where=fid)
+            else:
+                e = k[1] if k[0] == "err" else None
+                good = len(sink) == 1 and isinstance(e, Adt) and e.variant == "IoError" and e.fields.get("0") == Sym("ioerr.kind")
+                good = good or (len(sink) == 1 and k[0] == "err" and e == Sym("ioerr"))
+                R.check(good, "H-async1", "%s/write-error" % fam, "%s when the write fails: sink calls %s, result %r (expected the I/O error, kind preserved)" % (fid, sink, r), where=fid)
+
+
+def h_asref_values(F, R):
+    """VarBytes::as_ref returns the whole container for every variant."""
+    fid = "<common::types::VarBytes as core::convert::AsRef<[u8]>>::as_ref"
+    if fid not in F.fns:
+        raise AnchorLost(fid)
+    names = [v["name"] for v in F.adts["common::types::VarBytes"]["variants"]]
+    for v in names:
+        def hook(d, res, args, node, env):
+            name = node["fn"].get("name")
+            if (res or d) in F.fns:
+                return None
+            if name in ("as_ref", "as_slice", "deref", "borrow", "as_mut", "iter") and len(args) == 1:
+                return args[0]
+            if name in ("index", "get", "split_at", "get_unchecked") and len(args) == 2:
+                rng = args[1]
+                if isinstance(rng, Adt) and rng.variant == "RangeFull":
+                    return args[0]
+                return Sym(("part-of", vkey(args[0]), vkey(rng)))
+            return None
+        val = Adt("common::types::VarBytes", v, {"0": Sym("CONTENT")})
+        try:
+            r = PE(F, call_hook=hook).call_fn(fid, [val])
+        except Undecided as e:
+            raise AnchorLost("VarBytes::as_ref cannot be evaluated for %s: %s" % (v, e))
+        R.check(r == Sym("CONTENT"), "H-asref", v, "VarBytes::%s.as_ref() evaluates to %r, not the whole container" % (v, r), where=fid)
+    R.floor("H-asref", "VarBytes variants", len(names), 3)
+
+
+# ---- one way to obtain a header ---------------------------------------------------------------------------------------------
+
+def h_hdr1_values(F, R):
+    """decode_raw_header reads one byte then one variable byte integer and returns exactly (that byte, that value) without
+    raising an error of its own; Header::decode_async of each family is Header::new_with(that byte, that value);
+    PollHeader::new_with is the same Header::new_with; Header::decode is block_on(Header::decode_async)."""
+    fid = "common::utils::decode_raw_header"
+    if fid not in F.fns:
+        raise AnchorLost(fid)
+    order = []
+
+    def hook(d, res, args, node, env):
+        r = res or d
+        if r == "common::utils::read_u8":
+            order.append("read_u8")
+            return ok(Sym("CONTROL"))
+        if r == "common::utils::decode_var_int":
+            order.append("decode_var_int")
+            return ok(Tup([Sym("REMAINING"), Sym("WIDTH")]))
+        if r.startswith("common::utils::read_") or node["fn"].get("name") == "read_exact":
+            order.append(r)
+            return ok(Sym("X"))
+        return None
+    try:
+        r = PE(F, call_hook=hook, cond_hook=TRY_OK).call_fn(fid, [Sym("READER")])
+    except Undecided as e:
+        R.fail("H-hdr1", "decode_raw_header/no-own-errors",
+               "decode_raw_header does more than read the control byte and the remaining length (%s): the async/blocking decoders would then "
+               "classify a header differently from the poll decoder" % str(e)[:160], where=fid)
+        r = None
+    if r is not None:
+        k = result_kind(r)
+        R.check(order == ["read_u8", "decode_var_int"], "H-hdr1", "decode_raw_header/reads", "decode_raw_header performs %s (expected read_u8 then decode_var_int)" % order, where=fid)
+        good = k[0] == "ok" and isinstance(k[1], Tup) and k[1].items[:2] == [Sym("CONTROL"), Sym("REMAINING")]
+        R.check(good, "H-hdr1", "decode_raw_header/no-own-errors",
+                "decode_raw_header returns %r for any control byte / remaining length (expected Ok((control byte, remaining length)): it raises nothing of its own)" % (r,), where=fid)
+    for fam in FAMS:
+        hdr = "%s::packet::Header" % fam
+        da = hdr + "::decode_async"
+        calls = []
+
+        def hook2(d, res, args, node, env):
+            rr = res or d
+            if rr == "common::utils::decode_raw_header":
+                calls.append("raw")
+                return ok(Tup([Sym("CONTROL"), Sym("REMAINING")]))
+            if rr == hdr + "::new_with":
+                calls.append(("new_with", tuple(args)))
+                return ok(Sym("HEADER"))
+            if rr == da:
+                calls.append("decode_async")
+                return Sym("FUT")
+            if node["fn"].get("name") == "block_on":
+                calls.append(("block_on", args[0]))
+                return ok(Sym("HEADER"))
+            if rr.startswith("common::utils::read_"):
+                calls.append(rr)
+                return ok(Sym("X"))
+            return None
+        try:
+            r = PE(F, call_hook=hook2, cond_hook=TRY_OK).call_fn(da, [Sym("READER")])
+        except Undecided as e:
+            raise AnchorLost("%s cannot be evaluated: %s" % (da, e))
+        R.check(calls == ["raw", ("new_with", (Sym("CONTROL"), Sym("REMAINING")))] and r == ok(Sym("HEADER")), "H-hdr1", "%s/decode_async" % fam,
+                "%s performs %s and returns %r (expected decode_raw_header, then Header::new_with(control byte, remaining length))" % (da, calls, r), where=da)
+        del calls[:]
+        pn = F.impl_method("PollHeader", hdr, "new_with")
+        r = PE(F, call_hook=hook2, cond_hook=TRY_OK).call_fn(pn, [Sym("CONTROL"), Sym("REMAINING")])
+        R.check(calls == [("new_with", (Sym("CONTROL"), Sym("REMAINING")))] and r == ok(Sym("HEADER")), "H-hdr1", "%s/poll-new_with" % fam,
+                "PollHeader::new_with for %s performs %s and returns %r" % (hdr, calls, r), where=pn)
+        del calls[:]
+        hd = hdr + "::decode"
+        r = PE(F, call_hook=hook2, cond_hook=TRY_OK).call_fn(hd, [Sym("BYTES")])
+        good = calls[:1] == ["decode_async"] and len(calls) == 2 and calls[1] == ("block_on", Sym("FUT")) and r == ok(Sym("HEADER"))
+        R.check(good, "H-hdr1", "%s/Header::decode" % fam, "%s performs %s and returns %r (expected block_on(Header::decode_async(..)))" % (hd, calls, r), where=hd)
+
+
+# ---- the wire primitives of common::utils ------------------------------------------------------------------------------------
+
+def _be_value_ok(val, bs):
+    """val denotes the big-endian integer made of the symbolic bytes bs (from_be_bytes, or shifts / ors in any spelling)."""
+    if val == Sym(("from_be", tuple(vkey(b) for b in bs))):
+        return True
+    from r_pollpe import digit_form, _unsym
+    d = digit_form(val)
+    n = len(bs)
+    return d == {("atom", _unsym(vkey(b))): 256 ** (n - 1 - i) for i, b in enumerate(bs)}
+
+
+def _byte_of(term, V, n):
+    """index i (0 = most significant) if `term` is byte i of the n-byte opaque integer V, in any spelling; else None."""
+    from r_pollpe import _unsym
+    t = _unsym(vkey(term)) if not isinstance(term, tuple) else _unsym(term)
+    v = _unsym(vkey(V))
+    if isinstance(t, tuple) and len(t) == 4 and t[0] == "be" and _unsym(t[1]) == v and t[3] == n:
+        return t[2]
+    # (V >> 8k) as u8, ((V >> 8k) & 0xFF) as u8, (V / 256^k) % 256 ...
+    while isinstance(t, tuple) and t and t[0] == "cast":
+        t = _unsym(t[1])
+    if isinstance(t, tuple) and len(t) == 4 and t[0] == "bin" and t[1] == "Rem" and t[3] == 256:
+        t = _unsym(t[2])
+        while isinstance(t, tuple) and t and t[0] == "cast":
+            t = _unsym(t[1])
+    k = 0
+    if isinstance(t, tuple) and len(t) == 4 and t[0] == "bin" and t[1] == "Div" and isinstance(t[3], int):
+        sh = t[3]
+        k = 0
+        while sh > 1 and sh % 256 == 0:
+            sh //= 256
+            k += 1
+        if sh != 1:
+            return None
+        t = _unsym(t[2])
+        while isinstance(t, tuple) and t and t[0] == "cast":
+            t = _unsym(t[1])
+    if t == v:
+        return n - 1 - k
+    return None
+
+
+class _Wire:
+    """Transport model for the primitives: read_exact fills its buffer with fresh symbolic bytes, write_all records what it gets."""
+    def __init__(self, F):
+        self.F = F
+        self.reads = []       # sizes
+        self.read_vals = []   # the symbolic content handed out, per read
+        self.writes = []      # values
+
+    def _target(self, node, env, size_val):
+        tgt = strip(node["args"][1])
+        while tgt.get("k") == "Call" and tgt["fn"].get("name") in ("from_mut", "as_mut", "as_mut_slice", "deref_mut", "index_mut", "borrow_mut"):
+            tgt = strip(tgt["args"][0])
+        return tgt
+
+    def hook(self, d, res, args, node, env):
+        name = node["fn"].get("name")
+        r = res or d
+        if d == "alloc::vec::from_elem" and len(args) == 2:
+            return Adt("vec", "Vec", {"len": args[1], "content": Sym("ZEROS")})
+        if name in ("from_ref", "from_mut") and len(args) == 1 and "slice" in d:
+            return Tup([args[0]])
+        if name == "read_exact":
+            buf = args[1] if len(args) > 1 else None
+            tgt = self._target(node, env, None)
+            k = len(self.reads)
+            src = strip(node["args"][1])
+            scalar = src.get("k") == "Call" and src["fn"].get("name") == "from_mut"
+            if isinstance(buf, Tup):
+                n = len(buf.items)
+                content = Tup([Sym(("wire", k, i)) for i in range(n)])
+                if scalar:
+                    self.reads.append(1)
+                    self.read_vals.append(content)
+                    if tgt.get("k") == "Var":
+                        env[tgt["var"]["id"]] = content.items[0]     # `slice::from_mut(&mut byte)`: the scalar itself is filled
+                    return ok(UNIT)
+            elif isinstance(buf, Adt) and buf.adt == "vec":
+                n = buf.fields["len"]
+                content = Adt("vec", "Vec", {"len": n, "content": Sym(("wire-block", k))})
+            elif isinstance(buf, (int, Sym)) and strip(node["args"][1]).get("k") == "Call" and strip(node["args"][1])["fn"].get("name") == "from_mut":
+                n = 1
+                content = Sym(("wire", k, 0))
+            else:
+                raise Undecided("read_exact into %r" % (buf,))
+            self.reads.append(n)
+            self.read_vals.append(content)
+            if tgt.get("k") == "Var":
+                env[tgt["var"]["id"]] = content
+            return ok(UNIT)
+        if name in ("write_all",) and len(args) == 2:
+            data = args[1]
+            src = strip(node["args"][1])
+            if src.get("k") == "Call" and src["fn"].get("name") == "from_ref" and not isinstance(data, Tup):
+                data = Tup([data])
+            self.writes.append(data)
+            return ok(UNIT)
+        if name in ("write", "read", "read_to_end", "write_vectored", "flush", "poll_read", "poll_write"):
+            raise Undecided("transport call %s" % name)
+        if name in ("as_ref", "as_slice", "deref", "borrow", "as_mut", "as_mut_slice", "deref_mut") and len(args) == 1 and (res or d) not in self.F.fns:
+            return args[0]
+        if name == "len" and len(args) == 1 and isinstance(args[0], Sym):
+            return Sym(("len", vkey(args[0])))
+        return None
+
+
+def t_prims(F, R):
+    """The wire primitives of common::utils, evaluated on symbolic values against a transport model: read_u8 / read_u16 /
+    read_u32 read exactly 1 / 2 / 4 bytes and return them as a big-endian integer; read_bytes reads a u16 length n and then
+    exactly n bytes, which it returns; write_u8 / write_u16 / write_u32 write exactly the big-endian bytes of their argument;
+    write_bytes writes the length as a big-endian u16 and then the data, whole. (Engine L takes these facts as the summaries of
+    the primitives, so it does not depend on how they are spelled.)"""
+    U = "common::utils::"
+    n = 0
+    for fn, size in (("read_u8", 1), ("read_u16", 2), ("read_u32", 4)):
+        n += 1
+        w = _Wire(F)
+        try:
+            r = PE(F, call_hook=w.hook, cond_hook=TRY_OK).call_fn(U + fn, [Sym("READER")])
+        except Undecided as e:
+            raise AnchorLost("%s cannot be evaluated: %s" % (fn, e))
+        k = result_kind(r)
+        good = w.reads == [size] and k[0] == "ok"
+        if good:
+            bs = list(w.read_vals[0].items) if isinstance(w.read_vals[0], Tup) else [w.read_vals[0]]
+            good = (k[1] == bs[0]) if size == 1 else _be_value_ok(k[1], bs)
+        R.check(good, "T-prims", fn, "%s reads %s bytes and returns %r (expected one read of %d byte(s), returned as a big-endian integer)" % (fn, w.reads, r, size), where=U + fn)
+    # read_bytes
+    n += 1
+    w = _Wire(F)
+    try:
+        r = PE(F, call_hook=w.hook, cond_hook=TRY_OK).call_fn(U + "read_bytes", [Sym("READER")])
+    except Undecided as e:
+        raise AnchorLost("read_bytes cannot be evaluated: %s" % e)
+    k = result_kind(r)
+    good = len(w.reads) == 2 and w.reads[0] == 2 and k[0] == "ok" and isinstance(k[1], Adt) and k[1].adt == "vec" and \
+        k[1].fields.get("content") == Sym(("wire-block", 1))
+    if good:
+        ln = w.reads[1]
+        inner = ln
+        from r_pollpe import _unsym
+        t = _unsym(vkey(inner))
+        while isinstance(t, tuple) and t and t[0] == "cast":
+            t = _unsym(t[1])
+        good = _be_value_ok(Sym(t) if isinstance(t, tuple) else inner, list(w.read_vals[0].items))
+    R.check(good, "T-prims", "read_bytes", "read_bytes performs reads of sizes %s and returns %r (expected a 2-byte big-endian length n, then exactly n bytes, returned whole)" % (w.reads, r), where=U + "read_bytes")
+    for fn, size in (("write_u8", 1), ("write_u16", 2), ("write_u32", 4)):
+        n += 1
+        w = _Wire(F)
+        V = Sym("V")
+        try:
+            r = PE(F, call_hook=w.hook, cond_hook=TRY_OK).call_fn(U + fn, [Sym("WRITER"), V])
+        except Undecided as e:
+            raise AnchorLost("%s cannot be evaluated: %s" % (fn, e))
+        flat = []
+        for d in w.writes:
+            flat += list(d.items) if isinstance(d, Tup) else [("opaque", d)]
+        if size == 1:
+            good = flat == [V]
+        else:
+            good = [_byte_of(b, V, size) if not (isinstance(b, tuple) and b and b[0] == "opaque") else None for b in flat] == list(range(size))
+        R.check(good and result_kind(r)[0] == "ok", "T-prims", fn,
+                "%s writes %s and returns %r (expected exactly the %d big-endian byte(s) of its argument)" % (fn, [repr(x) for x in w.writes], r, size), where=U + fn)
+    # write_bytes
+    n += 1
+    w = _Wire(F)
+    D = Sym("DATA")
+    try:
+        r = PE(F, call_hook=w.hook, cond_hook=TRY_OK).call_fn(U + "write_bytes", [Sym("WRITER"), D])
+    except Undecided as e:
+        raise AnchorLost("write_bytes cannot be evaluated: %s" % e)
+    flat = []
+    for d in w.writes:
+        flat += list(d.items) if isinstance(d, Tup) else [d]
+    good = len(flat) == 3 and flat[2] == D and result_kind(r)[0] == "ok"
+    if good:
+        L16 = Sym(("cast", ("len", vkey(D)), "u16"))
+        good = [_byte_of(flat[0], L16, 2), _byte_of(flat[1], L16, 2)] == [0, 1]
+    R.check(good, "T-prims", "write_bytes", "write_bytes writes %s (expected the length as a big-endian u16, then the data, whole)" % ([repr(x) for x in flat],), where=U + "write_bytes")
+    R.floor("T-prims", "primitives evaluated", n, 8)
